@@ -77,7 +77,8 @@ Inductive sexpr :=
 | EVar (x : string)                                   (* x *)
 | ECall (f : string) (x : string)                     (* f(x) *)
 | EComp (item : string) (elt : sexpr) (x : string)    (* [elt for item in x] *)
-| EGuard (top : bool) (x : string) (e : sexpr).       (* x if x is None [or x is UNSET] else e *)
+| EGuard (top : bool) (x : string) (e : sexpr)        (* x if x is None [or x is UNSET] else e *)
+| ENotNone (x : string) (e : sexpr).                  (* e if x is not None else None   (custom_arguments.py) *)
 
 Definition dictval := sexpr.
 
@@ -88,6 +89,7 @@ Fixpoint dictval_str (d : sexpr) : string :=
   | EComp i e x => "[" ++ dictval_str e ++ " for " ++ i ++ " in " ++ x ++ "]"
   | EGuard top x e => x ++ " if " ++ x ++ " is None" ++ (if top then " or " ++ x ++ " is UNSET" else "")
                         ++ " else " ++ dictval_str e
+  | ENotNone x e => dictval_str e ++ " if " ++ x ++ " is not None else None"
   end.
 
 Definition item_name (depth : nat) : string := "_item" ++ z_to_string (Z.of_nat depth).
@@ -147,6 +149,19 @@ Definition ser_name (S : schema) (used : option string) : option string :=
               | Some (DCustom (Some c)) => option_map object_name (sc_ser c)
               | _ => None
               end
+  end.
+
+(* custom_arguments.py _generate_serialize_expr (since /repo 3032a3a; enable_custom_operations): same element-wise
+   shape, None stays None, and the argument itself (depth 0) is always guarded ("None = not given") *)
+Fixpoint gen_cu (t : gtype) (x f : string) (nullable : bool) (depth : nat) : sexpr :=
+  match t with
+  | TNonNull t' => gen_cu t' x f false depth
+  | TList t' =>
+      let e := EComp (item_name depth) (gen_cu t' (item_name depth) f true (Datatypes.S depth)) x in
+      if nullable || Nat.eqb depth 0 then ENotNone x e else e
+  | TNamed _ =>
+      let e := ECall f x in
+      if nullable || Nat.eqb depth 0 then ENotNone x e else e
   end.
 
 Definition dict_value (S : schema) (py : string) (used : option string) (t : gtype) : dictval :=
